@@ -23,3 +23,22 @@ package bigslice
 //@   vars n, nshard, s int
 //@ lemma tiling-end: implies(n >= 0 && nshard >= 1, shardOff(n, nshard, nshard) == n)
 //@   vars n, nshard int
+
+// ---- pragmas (C14): combined pragmas ask for the maximum procs (at least 1) and are exclusive if any is ----
+
+// (the role contracts of Pragma.Procs / Pragma.Exclusive, with the spec functions procsPragma / exclusivePragma,
+// are in /verif/trusted/exec.contracts)
+
+//@ func bigslice.Pragmas.Procs
+//@   requires forall(i, 0, len(p), p[i] != nil)
+//@   ensures  at-least-one: result >= 1
+//@   ensures  upper-bound: forall(i, 0, len(p), procsPragma(p[i]) <= result)
+//@   ensures  attained: result == 1 || exists(i, 0, len(p), procsPragma(p[i]) == result)
+//@   modifies nothing
+//@   loop 1 invariant need >= 1 && forall(i, 0, range_idx, procsPragma(p[i]) <= need) && (need == 1 || exists(i, 0, range_idx, procsPragma(p[i]) == need))
+
+//@ func bigslice.Pragmas.Exclusive
+//@   requires forall(i, 0, len(p), p[i] != nil)
+//@   ensures  result == exists(i, 0, len(p), exclusivePragma(p[i]))
+//@   modifies nothing
+//@   loop 1 invariant forall(i, 0, range_idx, !exclusivePragma(p[i]))
